@@ -175,7 +175,7 @@ def run(ctx):
     ctx.add_tlc(r, "mc_lda")
     if not r.ok:
         raise InfraError("Lda.tla: invariant %s fails in the model itself:\n%s" % (r.violation, r.trace_text[:1500]))
-    cases = r.emits
+    cases = sorted(r.emits, key=lambda c: (len(c["lab"]), c["lab"], json.dumps(c["X"])))      # TLC's print order depends on worker scheduling
     if not cases or r.distinct != len(cases):
         raise InfraError("Lda.tla GEN: %d states but %d emitted cases" % (r.distinct, len(cases)))
     ctx.note("model: %d label vectors x feature patterns; bookkeeping, prior and mean invariants hold for LabelMap = plus_start" % r.distinct)
